@@ -58,7 +58,7 @@ func traverse(context Context, matchingNode *CandidateNode, operation *Operation
 
 	case SequenceNode:
 		log.Debug("its a sequence of %v things!", len(matchingNode.Content))
-		return traverseArray(matchingNode, operation, operation.Preferences.(traversePreferences))
+		return traverseArray(context, matchingNode, operation, operation.Preferences.(traversePreferences))
 
 	case AliasNode:
 		log.Debug("its an alias!")
@@ -129,6 +129,10 @@ func traverseNodesWithArrayIndices(context Context, indicesToTraverse []*Candida
 }
 
 func traverseArrayIndices(context Context, matchingNode *CandidateNode, indicesToTraverse []*CandidateNode, prefs traversePreferences) (*list.List, error) { // call this if doc / alias like the other traverse
+	if matchingNode.Tag == "!!null" && context.DontAutoCreate {
+		// read-only: a null has no entries and must not be turned into a container
+		return list.New(), nil
+	}
 	if matchingNode.Tag == "!!null" {
 		log.Debugf("OperatorArrayTraverse got a null - turning it into an empty array")
 		// auto vivification
@@ -144,7 +148,7 @@ func traverseArrayIndices(context Context, matchingNode *CandidateNode, indicesT
 		matchingNode = matchingNode.Alias
 		return traverseArrayIndices(context, matchingNode, indicesToTraverse, prefs)
 	} else if matchingNode.Kind == SequenceNode {
-		return traverseArrayWithIndices(matchingNode, indicesToTraverse, prefs)
+		return traverseArrayWithIndices(context, matchingNode, indicesToTraverse, prefs)
 	} else if matchingNode.Kind == MappingNode {
 		return traverseMapWithIndices(context, matchingNode, indicesToTraverse, prefs)
 	}
@@ -171,7 +175,7 @@ func traverseMapWithIndices(context Context, candidate *CandidateNode, indices [
 	return matchingNodeMap, nil
 }
 
-func traverseArrayWithIndices(node *CandidateNode, indices []*CandidateNode, prefs traversePreferences) (*list.List, error) {
+func traverseArrayWithIndices(context Context, node *CandidateNode, indices []*CandidateNode, prefs traversePreferences) (*list.List, error) {
 	log.Debug("traverseArrayWithIndices")
 	var newMatches = list.New()
 	if len(indices) == 0 {
@@ -195,6 +199,10 @@ func traverseArrayWithIndices(node *CandidateNode, indices []*CandidateNode, pre
 		}
 		indexToUse := index
 		contentLength := len(node.Content)
+		if contentLength <= index && context.DontAutoCreate {
+			// read-only: an index past the end has no entry, do not pad the array
+			continue
+		}
 		for contentLength <= index {
 			if contentLength == 0 {
 				// default to nice yaml formatting
@@ -314,8 +322,8 @@ func traverseMergeAnchor(newMatches *orderedmap.OrderedMap, value *CandidateNode
 	return nil
 }
 
-func traverseArray(candidate *CandidateNode, operation *Operation, prefs traversePreferences) (*list.List, error) {
+func traverseArray(context Context, candidate *CandidateNode, operation *Operation, prefs traversePreferences) (*list.List, error) {
 	log.Debug("operation Value %v", operation.Value)
 	indices := []*CandidateNode{{Value: operation.StringValue}}
-	return traverseArrayWithIndices(candidate, indices, prefs)
+	return traverseArrayWithIndices(context, candidate, indices, prefs)
 }
